@@ -94,6 +94,29 @@ CLAIMED = {
         note="threading.Lock inside SerializableLock is replaced by SimLock (wraps a real lock); creation races "
              "are excluded as documented; pre-emption only at lock operations and explicit yield points.",
         ref="DESIGN.md §4 C53"),
+    "C29": dict(
+        technique="deterministic simulation (E2): chunk writes on baton-passed worker threads into a "
+                  "read-modify-write SimTarget, simulated locks, seeded interleavings",
+        text="Every load_store_chunk runs on a simulated worker; the target performs read→(pre-empt)→modify→"
+             "(pre-empt)→write-back over g-aligned blocks, so a missing, too narrow or per-source lock loses "
+             "updates in most interleavings. Oracle: target region == source, bytes outside untouched, no "
+             "overlapping writes in flight under a lock, deferred store writes nothing before compute, "
+             "returned stored arrays equal the sources, npy stack round trip.",
+        note="lock=False is only required to be exact on element-atomic targets (g = 1); NumPy code is not "
+             "pre-empted; dtype int64 only.",
+        ref="DESIGN.md §4 C29"),
+    "C50": dict(
+        technique="deterministic simulation with fault injection: SimFS storage (independent handles, every "
+                  "open/seek/read/close a scheduling and fault point), E2 worker threads, concurrent clients, "
+                  "simulated process boundary, injected OSError",
+        text="Blocks from read_bytes must concatenate to the file with every boundary after a delimiter, and "
+             "read_text must return the file split after each delimiter for every blocksize, under every "
+             "simulated interleaving of handle operations, when two clients compute the same delayed blocks "
+             "at once, across the cloudpickle boundary, and must either raise the injected OSError or be "
+             "exact when an open/read fails; no handle may stay open.",
+        note="SimFS replaces the disk; short reads are not injected (buffered-file contract); one open known "
+             "finding (self-overlapping delimiters with a blocksize) is matched narrowly.",
+        ref="DESIGN.md §4 C50"),
 }
 
 NA = {
